@@ -423,3 +423,10 @@ def tab_rows(tab):
     """list of dict rows from a table_to_obj result."""
     cols = tab["columns"]
     return [dict(zip(cols, r)) for r in tab["rows"]]
+
+
+def tab_rows_num(tab):
+    """like tab_rows, but the textual renderings of non-finite doubles become floats again (NaN compares false to everything)"""
+    conv = {"NaN": float("nan"), "Inf": float("inf"), "-Inf": float("-inf")}
+    cols = tab["columns"]
+    return [dict(zip(cols, [conv.get(v, v) if isinstance(v, str) else v for v in r])) for r in tab["rows"]]
